@@ -43,8 +43,9 @@ fn c05_bitwriter_put_value_step() {
     bw.flush();
     assert!(bw.buffer.len() == before + (bo as usize + 7) / 8 && bw.bit_offset == 0 && bw.buffered_values == 0, "flush pads to a byte");
     let j: usize = kani::any();
-    kani::assume(j < 8 && before + j < bw.buffer.len());
-    assert!(bw.buffer[before + j] == (pending >> (8 * j)) as u8, "flushed byte j");
+    if j < 8 && before + j < bw.buffer.len() {
+        assert!(bw.buffer[before + j] == (pending >> (8 * j)) as u8, "flushed byte j");
+    }
     std::mem::forget(bw);
     kani::cover!(total > 64 && w == 64 && off % 8 != 0, "64-bit value split across words");
     kani::cover!(total == 64);
